@@ -31,6 +31,7 @@ func Harness_C10_deterministic() {
 	zz.Assume(n <= 1<<31)
 	zz.Assume(m >= 1)
 	zz.Assume(m <= n)
+	zz.SearchOnReplay("traceID") // the hash of the ID is an uninterpreted function in the engine
 	id := zz.NondetStringN("traceID", 2)
 	dN := verifDet(n)
 	dM := verifDet(m)
